@@ -4,11 +4,14 @@
     requests that change nothing where the effect already took place. A pass of the model is a function
     of the stored world alone (no in-memory state survives a pass), by construction of ObjectSet.v /
     Phase.v and checked against the code by running every pass on a fresh controller and cache.
+    Also proved: quiescence of a phase - the desired state is a fixpoint of the phase reconciler (a settled object is
+    re-applied without any change; every successful apply leaves the object settled; a completed pass over a
+    phase is followed by passes that change neither the store nor the counters: "further reconciles change nothing").
     What is NOT proved (explored by fault enumeration on the real code in checks/C10.py): that the
     sequence of passes reaches the clean-run end state from every disturbed state, for multi-revision
-    deployments and under every fair schedule. Statements only. *)
+    deployments and under every fair schedule; quiescence of the ObjectSet's own status writes. Statements only. *)
 From Coq Require Import List NArith ZArith Bool.
-From PKO Require Import Base Owner Api ApiProofs Phase PhaseProofs ConvergeProofs.
+From PKO Require Import Base Owner OwnerProofs Api ApiProofs Phase PhaseProofs AdoptProofs ConvergeProofs FixpointProofs.
 Import ListNotations.
 
 Theorem C10_apply_idempotent :
@@ -44,3 +47,39 @@ Theorem C10_owner_merge_idempotent :
   forall stored patch, NoDup (map r_uid patch) -> merge_refs (merge_refs stored patch) patch = merge_refs stored patch.
 Proof. exact merge_refs_idem. Qed.
 Print Assumptions C10_owner_merge_idempotent.
+
+(** The desired state is a fixpoint: an object that is cached, controlled by the owner, carries the desired body,
+    the owner's revision and package label and a well-formed owner list is re-applied by an unpaused pass without
+    any change to the store or the counters (the one request is a no-op apply), for every controller flavour. *)
+Theorem C10_settled_object_noop :
+  forall c w ow prev p o,
+    ow_paused ow = false ->
+    set_controller_l (flavor_strat (c_flavor c)) (ow_id ow) (k_ns (key_of ow p)) [] <> None ->
+    lookup (key_of ow p) (w_store w) = Some o -> settled c ow p o ->
+    reconcile_object c idw w ow prev p = (w, [EApply (key_of ow p) (Some o) (Some o) (POk o)], ROk o).
+Proof. exact rec_obj_settled. Qed.
+Print Assumptions C10_settled_object_noop.
+
+(** Every successful apply of a pass (create, refresh of an owned object, permitted adoption) leaves the object
+    settled, for any stored object with a well-formed owner list. *)
+Theorem C10_apply_settles :
+  forall c w ow prev p w1 e1 o1,
+    ow_paused ow = false ->
+    (forall cu, lookup (key_of ow p) (w_store w) = Some cu -> obj_wf (flavor_strat (c_flavor c)) (ow_id ow) cu) ->
+    reconcile_object c idw w ow prev p = (w1, e1, ROk o1) -> e1 <> [] ->
+    lookup (key_of ow p) (w_store w1) = Some o1 /\ settled c ow p o1.
+Proof. exact rec_obj_settles. Qed.
+Print Assumptions C10_apply_settles.
+
+(** Quiescence of a phase: after a completed, unpaused pass over a phase with distinct keys (and well-formed stored
+    owner lists) reconciling the phase again - from any accumulator, i.e. inside any later pass - leaves the store
+    and both counters exactly as they are, sends only no-op applies and completes again. *)
+Theorem C10_phase_pass_is_fixpoint :
+  forall c ow prev ps w acc failed w' evs a f,
+    ow_paused ow = false -> NoDup (map (key_of ow) ps) ->
+    (forall p cu, In p ps -> lookup (key_of ow p) (w_store w) = Some cu -> obj_wf (flavor_strat (c_flavor c)) (ow_id ow) cu) ->
+    reconcile_objects c idw w ow prev ps acc failed = (w', evs, PhOk a f) ->
+    forall acc2 failed2, exists evs2 a2 f2,
+      reconcile_objects c idw w' ow prev ps acc2 failed2 = (w', evs2, PhOk a2 f2) /\ Forall noop_ev evs2.
+Proof. exact phase_pass_is_fixpoint. Qed.
+Print Assumptions C10_phase_pass_is_fixpoint.
